@@ -77,21 +77,23 @@ def parseView (s : String) : Option ObsView :=
            cfin := cf, sfin := sf, peer := pe, own := ow }
   | _, _ => none
 
-/-- the negotiation of the untampered run: `vers.suite.alpn.resumed` -/
+/-- the untampered run: `vers.suite.alpn.resumed.servercerts` -/
 structure ObsNego where
   vers : String
   suite : String
   alpn : String
   resumed : String
+  cert : String
 deriving Repr, DecidableEq
 
 def parseNego (s : String) : Option ObsNego :=
   let p := s.splitOn "."
-  if p.length < 4 then none else
+  if p.length < 5 then none else
   match p with
   | v :: su :: rest =>
-    some { vers := v, suite := su, alpn := ".".intercalate (rest.take (rest.length - 1)),
-           resumed := rest.getLast?.getD "" }
+    let n := rest.length
+    some { vers := v, suite := su, alpn := ".".intercalate (rest.take (n - 2)),
+           resumed := (rest.drop (n - 2)).headD "", cert := rest.getLast?.getD "" }
   | _ => none
 
 /-- a Finished value is compared when both endpoints recorded it -/
@@ -115,13 +117,19 @@ def negoDiffers (v : ObsView) (b : ObsNego) : Option String :=
   else if v.suite != b.suite then some "suite"
   else if v.alpn != b.alpn then some "alpn"
   else if v.resumed != b.resumed then some "resumed"
+  else if v.peer != b.cert then some "server_certificates"
   else none
 
 /-- the property on one observation: `some (tag, reason)` when it fails -/
-def judgeObs (panic : Bool) (cv sv : Option ObsView) (cDone sDone : Bool) (base : Option ObsNego) :
-    Option (String × String) :=
+def judgeObs (panic : Bool) (cv sv : Option ObsView) (cDone sDone : Bool) (base : Option ObsNego)
+    (alteredAccepted : Option String := none) : Option (String × String) :=
   if panic then some ("panic", "an endpoint panicked") else
   if cDone && sDone then
+    -- both completed although an authenticated item was altered in transit and never retransmitted:
+    -- what was accepted is not byte for byte what was sent
+    match alteredAccepted with
+    | some what => some ("altered-accepted", s!"both completed although {what} was altered in transit and not retransmitted")
+    | none =>
     match cv, sv with
     | some c, some s =>
       match viewsDiffer c s with
